@@ -248,5 +248,7 @@ def install_accept_race_probe(nfc):
         if self.state.LISTEN and rcvd_pdu.name in ("I", "RR", "RNR"):
             ACCEPT_RACE.append((rcvd_pdu.name, rcvd_pdu.ssap, rcvd_pdu.dsap))
         return orig(self, rcvd_pdu)
+    enqueue.__wrapped__ = orig
+    enqueue.__module__ = orig.__module__      # keep it visible to the line pre-emption instrumentation walk
     tco.DataLinkConnection.enqueue = enqueue
     _race_probe[0] = True
